@@ -92,6 +92,21 @@ CLAIMED.update({
     },
 })
 
+CLAIMED.update({
+    "C09": {
+        "text": "Coq theorems (closed under the global context), from ANY well-formed state (every reachable state is: C01): the call that continues a running program (C09_continue), the calls that start evaluation - an immediate statement line, RUN, CONT (C09_start) - and their common core (C09_turn) append at most ONE record that shows an executed statement (Print / Reenter / ExtraIgnored / Break; an IF together with the single statement it selects counts as one) and every Trace record of the call names the one line the cursor was on at entry; expression evaluation, user-function bodies included, appends only warnings (C09_expressions_silent). Proved by a relational walk over all evaluators. The per-call work bound and OutOfFuel-freedom are validated: the model's cursor-read counter must EQUAL the implementation's hook counter on every call and both are checked against 14*(tokens+1)+24; every implementation call runs under a time limit.",
+        "design_ref": "DESIGN.md 6 C09",
+        "note": NOTE + "PARTIAL: C09_work (reads <= K*(line length+1)+K' without user functions) and C09_returns (no OutOfFuel) are validated by exact counter correspondence and the oracle, not proved.",
+        "technique": "Coq proof: output-record accounting by a three-level relational walk over all evaluators (expression / simple statement / statement with nested IF); exact read-counter correspondence + per-call oracle",
+    },
+    "C14": {
+        "text": "Coq theorems (closed under the global context): for EVERY stored program whose lines round-trip (line_roundtrips: the listing text of a line is an edit storing the same tokens under the same number), entering the LIST output into a fresh interpreter yields the same line numbers, the same tokens on every line and the identical listing - LIST is a fixed point (C14_reload_store, C14_list_fixpoint, C14_listing_is_list; induction over the listing with the store refinement of C04); token adjacency is decided over the regenerated tables: every keyword / operator / punctuation token, and every ordered pair of them that the tokenizer can produce at all, is re-read from the canonical spellings joined by one blank (C14_fixed_tokens, C14_fixed_pairs). The per-line round trip of literal tokens (numerals in every spelling, DATA items, REM text, strings) and identical behaviour under RUN are discharged by execution: LIST -> reload -> LIST / RUN oracle on the implementation and LIST correspondence with the model over generated programs.",
+        "design_ref": "DESIGN.md 6 C14",
+        "note": NOTE + "PARTIAL: line_roundtrips for literal-bearing lines is a hypothesis of the program-level theorems (validated by the oracle, the correspondence and Coq-evaluated examples), as foreseen in DESIGN.md 6 C14 L; RUN equivalence of the reloaded program is validated, not proved.",
+        "technique": "Coq proof: lifting of per-line round trips to programs via the store refinement + exhaustive computation over the finite token tables; LIST/reload/RUN differential oracle + correspondence",
+    },
+})
+
 _TODO = "check under construction in this session; not claimed until its theorems and correspondence are in place"
-NOT_CLAIMED = {p: _TODO for p in ["C03", "C05", "C06", "C09", "C14",
+NOT_CLAIMED = {p: _TODO for p in ["C03", "C05", "C06",
                                   "C15", "C19", "C20"]}
